@@ -166,6 +166,32 @@ Theorem C12_closed_value_inert : forall sigs v s,
 Proof. exact SP.closed_value_check. Qed.
 Print Assumptions C12_closed_value_inert.
 
+(* renaming, parentheses and reordering on the model with catch scopes: consistent renaming of the locals
+   (closure parameters included) of a method body by any injective renaming, redundant parentheses
+   anywhere, and any permutation of method definitions with distinct names *)
+Theorem C12_rename_scoped : forall f, (forall x y, f x = f y -> x = y) ->
+  forall fx ms1 n rt u body ms2 mn,
+  S.check_prog fx (S.mkProg (ms1 ++ (n, rt, u, S.ren_block f body) :: ms2) mn) =
+  S.check_prog fx (S.mkProg (ms1 ++ (n, rt, u, body) :: ms2) mn).
+Proof. exact SP.rename_method. Qed.
+Print Assumptions C12_rename_scoped.
+
+Theorem C12_rename_one_local_scoped : forall x y fx ms1 n rt u body ms2 mn,
+  S.errors fx (S.mkProg (ms1 ++ (n, rt, u, S.ren_block (S.swap x y) body) :: ms2) mn) =
+  S.errors fx (S.mkProg (ms1 ++ (n, rt, u, body) :: ms2) mn).
+Proof. intros. unfold S.errors. now rewrite (SP.rename_method (S.swap x y) (SP.swap_inj x y)). Qed.
+Print Assumptions C12_rename_one_local_scoped.
+
+Theorem C12_parens_scoped : forall fx p, S.check_prog fx (S.strip_prog p) = S.check_prog fx p.
+Proof. exact SP.parens_prog. Qed.
+Print Assumptions C12_parens_scoped.
+
+Theorem C12_reorder_scoped : forall ms ms' mn,
+  Permutation ms ms' -> NoDup (map fst (S.sigs_of ms)) ->
+  S.errors true (S.mkProg ms' mn) = S.errors true (S.mkProg ms mn).
+Proof. exact SP.reorder_methods. Qed.
+Print Assumptions C12_reorder_scoped.
+
 (* ---- non-vacuity of the scoped statements ---- *)
 Definition blk (l : list S.expr) : S.block := fold_right S.BCons S.BNil l.
 Definition fmt : S.exc := 0%N.
@@ -209,3 +235,9 @@ Proof.
   split. { cbn. intros [H|[H|[H|H]]]; try discriminate; exact H. }
   vm_compute. repeat split; reflexivity.
 Qed.
+
+Example C12_rename_scoped_nonvacuous :
+  S.ren_block (S.swap 2%N 8%N) (total_body []) =
+  blk [S.EDo (blk [S.ELet 8%N (S.EMeth 0%N); S.ELet 3%N (S.EMeth 0%N); S.EVar 8%N]) [oor] (blk [S.ELit S.TInt])] /\
+  S.strip_block (blk [S.EReturn (S.EParen (S.EParen (S.ELit S.TInt)))]) = blk [S.EReturn (S.ELit S.TInt)].
+Proof. vm_compute. auto. Qed.
